@@ -72,7 +72,7 @@ def main():
         shutil.rmtree(rdir, ignore_errors=True)
     shown = {}
     for v in new:
-        sig = json.dumps([v.key, v.clause], sort_keys=True)
+        sig = json.dumps(v.key, sort_keys=True)
         shown[sig] = shown.get(sig, 0) + 1
         if shown[sig] > 3 or a.replay:
             continue
